@@ -4,6 +4,9 @@ coq/Nix/Observe.v computes from the store model, and its digest.
 tokens:  int -> WN,  None -> WNone,  str -> text (a text equal to a known entity id is an id
 token and is renamed by first appearance over the whole trace, exactly as in Observe.v)."""
 
+import re
+
+UUID_RE = re.compile(r"^[0-9a-f]{8}-[0-9a-f]{4}-[0-9a-f]{4}-[0-9a-f]{4}-[0-9a-f]{12}$")
 HP = 2305843009213693951
 HB = 1000003
 OPEN, CLOSE, ERR = -1, -2, -3
@@ -76,6 +79,13 @@ class Walker(object):
     def __init__(self, with_times, ids):
         self.with_times = with_times
         self.ids = ids          # set collecting every id seen in id positions
+        self.defined = set()    # ids of entities met in their owning container
+        self.dup_ids = []       # ids met twice in owning positions
+        self.bad_ids = []       # ids that are not well-formed UUIDs
+        self.linked = []        # (owner block id or None, role, target id) of every link met
+        self.block_defs = {}    # block id -> ids defined inside that block
+        self.cur_block = None
+        self.section_ids = set()
 
     def times(self, e):
         if not self.with_times:
@@ -88,11 +98,29 @@ class Walker(object):
             self.ids.add(i)
         return i
 
+    def define(self, e):
+        i = safe(lambda: e.id, None)
+        if isinstance(i, str):
+            if i in self.defined:
+                self.dup_ids.append(i)
+            self.defined.add(i)
+            if not UUID_RE.match(i):
+                self.bad_ids.append(i)
+
     def header(self, kind, e):
+        i = safe(lambda: e.id, None)
+        if isinstance(i, str):
+            if i in self.defined:
+                self.dup_ids.append(i)
+            self.defined.add(i)
+            if not UUID_RE.match(i):
+                self.bad_ids.append(i)
+            if self.cur_block is not None:
+                self.block_defs.setdefault(self.cur_block, set()).add(i)
         return [OPEN, KIND[kind], safe(lambda: e.name), self.idtok(e), safe(lambda: e.type),
                 safe(lambda: e.definition)] + self.times(e)
 
-    def link(self, fn):
+    def link(self, fn, role="single"):
         """id of the target of a single link, or None"""
         try:
             x = fn()
@@ -100,14 +128,21 @@ class Walker(object):
             return [ERR]
         if x is None:
             return [None]
-        return [self.idtok(x)]
+        t = self.idtok(x)
+        self.linked.append((self.cur_block, role, t))
+        return [t]
 
     def linklist(self, fn):
         try:
             items = list(fn())
         except Exception:
             return [OPEN, ERR, CLOSE]
-        return [OPEN] + [self.idtok(x) for x in items] + [CLOSE]
+        out = [OPEN]
+        for x in items:
+            t = self.idtok(x)
+            self.linked.append((self.cur_block, "list", t))
+            out.append(t)
+        return out + [CLOSE]
 
     def children(self, fn, f):
         try:
@@ -120,8 +155,9 @@ class Walker(object):
         return out + [CLOSE]
 
     def feature(self, ft):
+        self.define(ft)
         return [OPEN, KIND["Feature"], self.idtok(ft), safe(lambda: ft.link_type.value)] + \
-            self.link(lambda: ft.data) + self.times(ft) + [CLOSE]
+            self.link(lambda: ft.data, "featdata") + self.times(ft) + [CLOSE]
 
     def group(self, g):
         return self.header("Group", g) + self.link(lambda: g.metadata) + self.linklist(lambda: g.data_arrays) + \
@@ -145,6 +181,7 @@ class Walker(object):
             self.children(lambda: t.features, self.feature) + [CLOSE]
 
     def prop(self, p):
+        self.define(p)
         return [OPEN, KIND["Property"], safe(lambda: p.name), self.idtok(p)] + \
             safe(lambda: payload(p.values), [ERR]) + self.times(p) + [CLOSE]
 
@@ -153,12 +190,24 @@ class Walker(object):
             self.children(lambda: s.sources, self.source) + [CLOSE]
 
     def section(self, s):
+        i = safe(lambda: s.id, None)
+        if isinstance(i, str):
+            self.section_ids.add(i)
         return self.header("Section", s) + [safe(lambda: s.repository), safe(lambda: s.reference)] + \
             self.link(lambda: s.link) + self.children(lambda: s.props, self.prop) + \
             self.children(lambda: s.sections, self.section) + [CLOSE]
 
     def block(self, b):
-        return self.header("Block", b) + self.link(lambda: b.metadata) + self.children(lambda: b.groups, self.group) + \
+        self.cur_block = None
+        r = self._block(b)
+        self.cur_block = None
+        return r
+
+    def _block(self, b):
+        hdr = self.header("Block", b)
+        md = self.link(lambda: b.metadata)
+        self.cur_block = safe(lambda: b.id, None)
+        return hdr + md + self.children(lambda: b.groups, self.group) + \
             self.children(lambda: b.data_arrays, self.data_array) + self.children(lambda: b.tags, self.tag) + \
             self.children(lambda: b.multi_tags, self.multi_tag) + self.children(lambda: b.sources, self.source) + [CLOSE]
 
@@ -169,3 +218,20 @@ class Walker(object):
 
 def walk(f, with_times, ids):
     return Walker(with_times, ids).file(f)
+
+
+def walk_info(f, with_times, ids):
+    """walk + link hygiene: links whose target is defined nowhere (dangling), and links inside a
+    block (member lists, references, feature data, source lists) to entities of another block"""
+    w = Walker(with_times, ids)
+    toks = w.file(f)
+    dangling = sorted(set(t for _, _, t in w.linked if isinstance(t, str) and t not in w.defined))
+    cross = sorted(set(t for b, role, t in w.linked
+                       if b is not None and role in ("list", "featdata") and isinstance(t, str) and t in w.defined
+                       and t not in w.block_defs.get(b, set()) and not _is_section(w, t)))
+    return toks, {"dangling": dangling, "cross_block": cross, "defined": len(w.defined), "_defined_set": w.defined,
+                  "dup_ids": w.dup_ids, "bad_ids": w.bad_ids}
+
+
+def _is_section(w, t):
+    return t in w.section_ids
